@@ -734,6 +734,8 @@ pub fn run_check(check: &dyn Check, opts: &Options) -> i32 {
         .set("batch_hash", J::str(hash_hex(batch.finish())))
         .set("planned_runs", J::uint(n_runs))
         .set("runs_per_hour", J::num((completed as f64 / wall.max(1e-9) * 3600.0).round()))
+        .set("seeds_per_hour", J::num((completed as f64 / wall.max(1e-9) * 3600.0).round()))
+        .set("seeds_note", J::str("every run has its own seed splitmix(VERIF_SEED, property, run index); runs are independent simulated executions"))
         .set("sim_steps", J::uint(sim_steps))
         .set("sim_steps_note", J::str("simulated time = Monte-Carlo proposals / scheduler steps executed under observation"))
         .set("faults_fired", faults)
